@@ -48,16 +48,43 @@ def container? (fmt nr nc payload : String) : Option Container := do
   | "dense" => do let r ← denseRows? payload; if r.length == nr then some (.dense nc r) else none
   | _ => none
 
+def dtype? : String → Option DType
+  | "float" => some .float
+  | "bool" => some .bool
+  | "int8" => some int8
+  | "uint8" => some uint8
+  | "int32" => some int32
+  | "int64" => some int64
+  | _ => none
+
+/-- every stored value is a value of the dtype (decidable form of `DType.mem`) -/
+def memB : DType → Rat → Bool
+  | .float, _ => true
+  | .bool, a => a == 0 || a == 1
+  | .int lo hi, a => a.den == 1 && decide (lo ≤ a.num) && decide (a.num ≤ hi)
+
+def Container.values : Container → List Rat
+  | .csr _ rows => rows.flatMap fun r => r.map (·.2)
+  | .csc _ cols => cols.flatMap fun r => r.map (·.2)
+  | .coo _ _ es => es.map (·.2.2)
+  | .lil _ rows => rows.flatMap fun r => r.map (·.2)
+  | .dense _ rows => rows.flatten
+
 def handle : Handler
-  | "c01.canon", [fmt, nr, nc, payload] => some <| Option.getD (do
+  -- canonical CSR (sorted, duplicates summed in the dtype, zeros dropped) of what check_format builds
+  | "c01.canon", [dt, fmt, nr, nc, payload] => some <| Option.getD (do
+      let d ← dtype? dt
       let c ← container? fmt nr nc payload
       if !c.WF then some "err malformed"
-      else some ("ok " ++ showRows (canon c.nCol (toCsrRows c)))) "bad-args"
-  -- the CSR rows scipy is modelled to build, before canonicalisation (storage order visible)
-  | "c01.tocsr", [fmt, nr, nc, payload] => some <| Option.getD (do
+      else if !(Container.values c).all (memB d) then some "err not-in-dtype"
+      else some ("ok " ++ showRows (canonD d c.nCol (toCsrRowsD d c)))) "bad-args"
+  -- the CSR rows scipy is modelled to build, before canonicalisation (storage order and duplicates visible)
+  | "c01.tocsr", [dt, fmt, nr, nc, payload] => some <| Option.getD (do
+      let d ← dtype? dt
       let c ← container? fmt nr nc payload
       if !c.WF then some "err malformed"
-      else some ("ok " ++ showRows (toCsrRows c))) "bad-args"
+      else if !(Container.values c).all (memB d) then some "err not-in-dtype"
+      else some ("ok " ++ showRows (toCsrRowsD d c))) "bad-args"
   | _, _ => none
 
 end SkNet.Drive.C01
